@@ -195,7 +195,36 @@ func c20Cadence(m *Sim) {
 	rotations := 0
 	delayed := false
 	maxLag := int64(0)
+	restarted := false
 	for time.Now().Before(endAt) {
+		// Once per run the server may be down for days and come back late:
+		// the documented start-up rule (rotate while now-offset >= 4000) plus
+		// the first loop check must leave a window that holds every
+		// acceptable report.
+		if !restarted && m.C.Chance("late-restart", 1, 400) {
+			restarted = true
+			n.Stop()
+			time.Sleep(time.Duration(1+m.C.Int("offline-h", 500)) * time.Hour)
+			if err := n.Start(); err != nil {
+				m.Fail("C20.cadence-run", "restart", "server does not restart after being offline: %v", err)
+			}
+			// Start-up leaves now-offset below 4000 (documented rule); the loop's
+			// first check then rotates if it is above 3200, after its WattTime
+			// fetch. One check period later the running cadence must hold again.
+			if lag := int64(Slot()) - int64(n.Snap().Offset); lag >= 4000 {
+				m.Fail("C20.cadence-run", "startup", "after a late restart the clock is %d slots past the window offset: start-up catch-up must bring it below 4000", lag)
+			}
+			w.Advance(period + 10*time.Minute)
+			off := n.Snap().Offset
+			for n.Model.Offset < off {
+				n.Model.Rotate()
+				rotations++
+			}
+			if lag := int64(Slot()) - int64(off); lag > 3200+int64(period/(300*time.Second))+3 {
+				m.Fail("C20.cadence-run", "startup", "one check period after a late restart the clock is still %d slots past the window offset %d", lag, off)
+			}
+			m.Probe("c20.cadence.late-restart")
+		}
 		// Sometimes the rotation thread is delayed by up to one check period.
 		if m.C.Chance("delay-rotation", 1, 40) {
 			w.S.Hold(n.Name + ":migrate.wake")
